@@ -1451,12 +1451,39 @@ class ModuleScope(VhdlScope):
         "default",
     }
 
+    # predefined names (standard, std_logic_1164, numeric_std) and helpers
+    # the generated code relies on, declarations with these names would hide them
     _additional_reserved = {
         "std_logic",
+        "std_ulogic",
         "std_logic_vector",
+        "std_ulogic_vector",
         "signed",
         "unsigned",
         "resize",
+        "boolean",
+        "integer",
+        "natural",
+        "positive",
+        "string",
+        "bit",
+        "bit_vector",
+        "character",
+        "true",
+        "false",
+        "to_integer",
+        "to_unsigned",
+        "to_signed",
+        "shift_left",
+        "shift_right",
+        "rising_edge",
+        "falling_edge",
+        "cohdl_bool_to_std_logic",
+        "work",
+        "ieee",
+        "std",
+        "std_logic_1164",
+        "numeric_std",
     }
 
     def __init__(self, *, additional_reserved_names: set[str] = None):
